@@ -43,3 +43,33 @@ pub proof fn lemma_pw_mul(x: real, j: nat, k: nat)
         assert((x * a) * b == x * c) by(nonlinear_arith) requires a * b == c;
     }
 }
+
+/// if x*y == 1 then pw(x,n)*pw(y,n) == 1
+pub proof fn lemma_pw_recip(x: real, y: real, n: nat)
+    requires x * y == 1real,
+    ensures pw(x, n) * pw(y, n) == 1real,
+    decreases n,
+{
+    if n == 0 {
+        assert(pw(x, 0nat) == 1real && pw(y, 0nat) == 1real);
+    } else {
+        lemma_pw_recip(x, y, (n - 1) as nat);
+        let a = pw(x, (n - 1) as nat);
+        let b = pw(y, (n - 1) as nat);
+        assert(pw(x, n) == x * a);
+        assert(pw(y, n) == y * b);
+        assert((x * a) * (y * b) == 1real) by(nonlinear_arith) requires x * y == 1real, a * b == 1real;
+    }
+}
+
+pub proof fn lemma_pw_nonzero(x: real, n: nat)
+    requires x != 0real,
+    ensures pw(x, n) != 0real,
+    decreases n,
+{
+    if n > 0 {
+        lemma_pw_nonzero(x, (n - 1) as nat);
+        let a = pw(x, (n - 1) as nat);
+        assert(x * a != 0real) by(nonlinear_arith) requires x != 0real, a != 0real;
+    }
+}
